@@ -64,21 +64,24 @@ def scripts(init, out, want, max_scripts, max_len=40):
         by_state.setdefault(u, []).append(c)          # lists in a fixed order: the same seed gives the same programs
     res = []
     covered = set()
+    # one breadth-first tree from the initial state (the graph is deterministic): shortest call sequence to every shape
+    parent = {init: None}
+    order = []
+    dq = deque([init])
+    while dq:
+        u = dq.popleft()
+        order.append(u)
+        for c, v in sorted(out[u].items()) if u in out else ():
+            if v not in parent and c != "close":
+                parent[v] = (u, c)
+                dq.append(v)
+    nxt_i = 0
     while by_state and len(res) < max_scripts:
-        parent = {init: None}
-        dq = deque([init])
-        goal = None
-        while dq:
-            u = dq.popleft()
-            if by_state.get(u):
-                goal = u
-                break
-            for c, v in sorted(out[u].items()):
-                if v not in parent and c != "close":
-                    parent[v] = (u, c)
-                    dq.append(v)
-        if goal is None:
+        while nxt_i < len(order) and not by_state.get(order[nxt_i]):
+            nxt_i += 1                       # work only ever disappears: the nearest shape with work moves outwards
+        if nxt_i >= len(order):
             break
+        goal = order[nxt_i]
         calls = []
         x = goal
         while parent[x] is not None:
@@ -134,10 +137,12 @@ def program(rng, x, kind, calls, types=None):
     nud = 0
     step = 0
     ts0 = 0
+    have_src = False
     for c in calls:
         step += 1
         t = c.split()
         if t[0] == "src":
+            have_src = True
             ops.append({"op": "source", "id": 1, "name": lit("src1"), "vendor": rng.choice([None, lit("v")]), "model": None,
                         "version": None, "serial": None})
         elif t[0] in ("fsr", "vsr"):
@@ -148,13 +153,15 @@ def program(rng, x, kind, calls, types=None):
             first = base + rng.choice([0, 0, 3, -2, 100])
             tb = rng.choice([0, 1700000000 * (1 << 30)])
             nspd, nsdf, neps, nsum = progs.normalise(dt, spd, sdf, eps, sumdf)
-            sigs[g] = {"id": g, "src": 1, "dt": dt, "spd": spd, "sdf": sdf, "eps": eps, "sumdf": sumdf, "adf": rng.choice([0, 10]),
+            sigs[g] = {"id": g, "src": 1 if have_src else 0, "dt": dt, "spd": spd, "sdf": sdf, "eps": eps, "sumdf": sumdf, "adf": rng.choice([0, 10]),
                        "udf": rng.choice([0, 10]), "rate": rng.choice([1000, 48000, 1000000000]), "base": base, "tbase": tb,
                        "next": first, "first": first, "norm": (nspd, nsdf, neps, nsum), "defined": True, "nanno": 0, "nutc": 0,
                        "written": 0, "anno_ts": first, "utc_id": first, "utc_t": 0, "vsr": t[0] == "vsr",
                        "gen": (["bpat", rng.choice([0x10, 0x31, 0x55, 0x80])] if progs.WIDTH[dt] <= 8 and rng.random() < 0.3 else ["rnd"])}
             s = sigs[g]
-            op = {"op": "signal", "id": g, "src": 1, "dt": dt, "rate": s["rate"], "spd": spd, "sdf": sdf, "eps": eps, "sumdf": sumdf,
+            if not have_src:
+                feat.add("source-0")
+            op = {"op": "signal", "id": g, "src": 1 if have_src else 0, "dt": dt, "rate": s["rate"], "spd": spd, "sdf": sdf, "eps": eps, "sumdf": sumdf,
                   "adf": s["adf"], "udf": s["udf"], "name": lit("sig%d" % g), "units": rng.choice([None, lit("V")]), "base": base, "tbase": tb}
             if t[0] == "vsr":
                 op["st"] = 1
